@@ -241,6 +241,14 @@ func (m *UDPMuxDefault) RemoveConnByUfrag(ufrag string) {
 		return
 	}
 
+	// Close the removed connections: a connection that is no longer reachable
+	// by ufrag must not be able to register new addresses by writing, and its
+	// readers must be released. Close is idempotent, so this is a no-op when
+	// the removal was triggered by the connection being closed.
+	for _, c := range removedConns {
+		_ = c.Close()
+	}
+
 	m.addressMapMu.Lock()
 	defer m.addressMapMu.Unlock()
 
@@ -484,6 +492,13 @@ func (m *UDPMuxDefault) registerConnForAddress(conn *udpMuxedConn, addr netip.Ad
 
 	m.addressMapMu.Lock()
 	defer m.addressMapMu.Unlock()
+
+	// RemoveConnByUfrag closes a connection before it deletes the connection's
+	// bindings under addressMapMu, so a writer that lost that race must not
+	// bind the address anymore: nobody would ever remove the binding.
+	if conn.isClosed() {
+		return
+	}
 
 	existing, ok := m.addressMap[addr]
 	if ok {
